@@ -362,6 +362,16 @@ def theorem_gate(ctx, prop_modules, extra_build=None):
     return ok, failing
 
 
+MEMORY_LIMIT = 8 << 30
+
+
+def limit_memory():
+    """for the processes that run the code under test: an input that makes the tool allocate without bound ends in an allocation
+    failure (abort) of that process instead of exhausting the machine"""
+    import resource
+    resource.setrlimit(resource.RLIMIT_AS, (MEMORY_LIMIT, MEMORY_LIMIT))
+
+
 def run_harness_robust(cmd, lines, timeout_per_batch=1800, extra_args=None, max_restarts=25):
     """Like run_harness, but survives a process abort (stack overflow, OOM) or hang: the request
     that killed the process gets the reply 'abort rc=<n>' / 'timeout' and the rest is re-run
@@ -376,7 +386,7 @@ def run_harness_robust(cmd, lines, timeout_per_batch=1800, extra_args=None, max_
         restarts += 1
         data = "\n".join(todo) + "\n"
         try:
-            p = subprocess.run([HARNESS_BIN, cmd] + (extra_args or []), input=data, timeout=timeout_per_batch,
+            p = subprocess.run([HARNESS_BIN, cmd] + (extra_args or []), input=data, timeout=timeout_per_batch, preexec_fn=limit_memory,
                                stdout=subprocess.PIPE, stderr=subprocess.PIPE, text=True)
             out, rc, timed_out = p.stdout, p.returncode, False
         except subprocess.TimeoutExpired as e:
